@@ -228,6 +228,10 @@ func intercept(fr *frame, fn *ssa.Function, args []value) (value, bool) {
 			e.kind, e.name = 1, fn.Name()
 		case externals[full] != nil:
 			e.kind, e.name, e.ext = 2, full, externals[full]
+		case strings.Contains(full, "[") && externals[stripTypeArgs(full)] != nil:
+			// functions and methods of instantiated generics: one handler for every instantiation
+			k := stripTypeArgs(full)
+			e.kind, e.name, e.ext = 2, k, externals[k]
 		case fn.Synthetic == "package initializer" && fn.Pkg != nil && !initWhitelist[fn.Pkg.Pkg.Path()] && !strings.HasPrefix(fn.Pkg.Pkg.Path(), W.ModPath):
 			e.kind = 3
 		}
@@ -253,6 +257,25 @@ func intercept(fr *frame, fn *ssa.Function, args []value) (value, bool) {
 		return nil, true
 	}
 	return nil, false
+}
+
+// stripTypeArgs removes every [...] group: "(*sync/atomic.Pointer[p.T]).Load[p.T]" -> "(*sync/atomic.Pointer).Load".
+func stripTypeArgs(s string) string {
+	var sb strings.Builder
+	depth := 0
+	for i := 0; i < len(s); i++ {
+		switch s[i] {
+		case '[':
+			depth++
+		case ']':
+			depth--
+		default:
+			if depth == 0 {
+				sb.WriteByte(s[i])
+			}
+		}
+	}
+	return sb.String()
 }
 
 var apiNames = map[string]bool{
